@@ -5,6 +5,8 @@ import itertools
 from dataclasses import replace
 from datetime import timedelta
 
+from hypothesis import strategies as st
+
 from .. import gen, observe, rules
 from ..engine import Campaign, Result, Violation
 from ..observe import EPS
@@ -69,8 +71,16 @@ def ledger_violations(obs, sc_idx=0):
                     t = tm.get(p)
                     if t is None or t.start is None or t.end is None or not t.scheduled:
                         continue
-                    lo = max(a, t.start) if a < t.start < b else a
-                    hi = min(b, t.end) if a < t.end < b else b
+                    starts_here = a < t.start < b
+                    ends_here = a < t.end <= b
+                    lo = t.start if starts_here else a
+                    hi = t.end if ends_here else b
+                    # "the portions reported": a task that begins in the slot (and goes on) works from its start,
+                    # a task that came from another slot and ends in this one works up to its end - without a break
+                    if starts_here and not ends_here:
+                        hi = min(b, lo + timedelta(seconds=s))
+                    elif ends_here and not starts_here and t.start <= a:
+                        lo = max(a, hi - timedelta(seconds=s))
                     wins.append((p, (lo - a).total_seconds(), (hi - a).total_seconds(), s))
                 pts = sorted({w[1] for w in wins} | {w[2] for w in wins})
                 for x, y in itertools.combinations(pts, 2):
@@ -108,7 +118,48 @@ PF_B = gen.Profile(
 )
 
 
+PF_LIM = replace(PF_B, limits=True, task_limits=True, res_groups=True, priorities=True, alternatives=False, max_tasks=9, weeks=(1, 2))
 PF_MIX = replace(PF_B, alap_task=True, alap_project=False)
+
+
+@st.composite
+def limit_probe_specs(draw):
+    """Region generator: a dependent task whose first candidate slot it reaches with a mid-slot offset, on a resource
+    that another task has already used part of, while a limit on the task or its container keeps it out of the
+    slot (so it only *probes* it); a low-priority task then wants what is left of the slot."""
+    from datetime import datetime
+
+    from ..spec import Dep, Limit, ProjectSpec, Res, Task
+
+    res_min = draw(st.sampled_from([10, 15, 30, 60]))
+    spec = ProjectSpec(start=datetime(2025, 1, 6), dur=(2, "w"), res_min=res_min, resources=[Res("r1"), Res("r2"), Res("r3")])
+    k = draw(st.integers(1, 3))  # whole slots before the interesting one
+    off_a = draw(st.integers(1, res_min - 1))
+    off_c = draw(st.integers(1, res_min - 1))
+    lim_slots = draw(st.integers(1, 4))
+    a = Task("a", effort=(str(k * res_min + off_a), "min"), alloc=["r1"], priority=900)
+    c = Task("c", effort=(str(k * res_min + off_c), "min"), alloc=["r2"], priority=850)
+    b0 = Task("b0", effort=(str(lim_slots * res_min), "min"), alloc=["r3"], priority=800)
+    b = Task("b", effort=(str(draw(st.integers(1, 3 * res_min))), "min"), alloc=["r2"], priority=700, deps=[Dep(("a",))])
+    lim = Limit("dailymax", str(lim_slots * res_min), "min")
+    where = draw(st.integers(0, 2))
+    if where == 0:
+        grp = Task("grp", limits=[lim], children=[b0, b])
+        tasks = [a, c, grp]
+    elif where == 1:  # the limit sits on the resource group of r2 and r3 instead
+        spec.resources = [Res("r1"), Res("team", limits=[lim], children=[Res("r2"), Res("r3")])]
+        tasks = [a, c, b0, b]
+    else:  # on the task itself, used up by an earlier part of the day is impossible: use a tiny limit
+        b.limits = [Limit("dailymax", str(max(1, draw(st.integers(0, 2))) * res_min), "min")]
+        b.effort = (str(draw(st.integers(2, 4)) * res_min + draw(st.integers(0, res_min - 1))), "min")
+        tasks = [a, c, b0, b]
+    d = Task("d", effort=(str(draw(st.integers(1, 4 * res_min))), "min"), alloc=["r2"], priority=100)
+    order = draw(st.permutations(tasks + [d]))
+    spec.tasks = list(order)
+    if draw(st.booleans()):
+        spec.tasks.append(Task("e", effort=(str(draw(st.integers(1, 2 * res_min))), "min"), alloc=[draw(st.sampled_from(["r1", "r2", "r3"]))],
+                               priority=draw(st.sampled_from([50, 750, 950]))))
+    return spec
 
 
 def eval_project(spec):
@@ -143,6 +194,10 @@ def campaigns(tier):
             floor_nontrivial=0.05,
             describe="D1+D2 projects scheduled end to end; ledger invariants",
         ),
+        Campaign("limits_subslot", "hyp", evaluate=eval_project, strategy=lambda: gen.project_specs(PF_LIM), n=900 if q else 20000,
+                 describe="sub-slot efforts with dependency offsets under resource, group and task limits (tasks kept out of a slot by a limit)"),
+        Campaign("limit_probe", "hyp", evaluate=eval_project, strategy=limit_probe_specs, n=600 if q else 12000,
+                 describe="region: a dependent task probes a partly used slot with a mid-slot offset but is kept out by a limit; a later task takes the rest"),
         Campaign(
             "mixed_modes",
             "hyp",
